@@ -4,7 +4,7 @@ lemmas: which fields the bookkeeping functions can touch.
 -/
 import PsdVerif.Model.TreeState
 
-namespace PsdVerif.Tree
+namespace PsdVerif.TreeSt
 
 /-- `y` is listed below `a` (one or more list memberships). -/
 inductive Reach (s : State) : Id → Id → Prop where
@@ -323,4 +323,4 @@ theorem observe_same (s : State) (o : Obs) : SameTree s (observe s o).1 := by
   | isVisible x => simp only [observe]; split <;> exact SameTree.refl s
   | touch xs => exact touchAll_same s xs
 
-end PsdVerif.Tree
+end PsdVerif.TreeSt
